@@ -402,6 +402,14 @@ def fact_c14(facts, meta):
     return out
 
 PROPS["C08"] = {"scripts": None, "configs": only_default, "backends": one_backend, "modules": [], "theorems": [], "fact_checks": fact_c08, "oracles": [("taint", oracle_taint)]}
+def search_c08(run, tier, rng):
+    """a C08 obligation no longer checks (a leak event in a translated function, or a function the translator can no longer
+    follow): the taint run on the whole build matrix of the thorough tier, including the 32-bit-word and SIMD-off builds"""
+    r = oracle_taint(run, "thorough", rng)
+    if not r.get("ok", True) and r.get("witness"):
+        return {"lines": r["witness"]["lines"], "what": r["what"]}
+    return None
+PROPS["C08"]["proof_search"] = search_c08
 PROPS["C09"] = {"scripts": None, "configs": only_default, "backends": one_backend, "modules": [], "theorems": [], "oracles": [("buffers", oracle_buffers)]}
 PROPS["C11"] = {"scripts": None, "configs": only_default, "backends": one_backend, "modules": [], "theorems": [], "fact_checks": fact_c11, "oracles": [("junk", oracle_junk)]}
 PROPS["C12"] = {"scripts": s_mixed, "configs": cfg_matrix, "backends": all_backends, "modules": [], "theorems": []}
